@@ -143,10 +143,15 @@ def compare_post_repair(ctx, rcase, crr, prr, fresh, srv_of, n):
     ctx.count("post-repair-compared")
 
 
+PARAM_LINES = ([], [], [])
+
+
 def run_file(ctx, fidx, n_plans, seed, lines, impl, cases, rlines=None, rimpl=None, rcases=None):
     import grid
     import random
     from allmydata.immutable.filenode import CiphertextFileNode
+    from allmydata.immutable.repairer import Repairer
+    plines, pimpl, pcases = PARAM_LINES
     rlines = [] if rlines is None else rlines
     rimpl = [] if rimpl is None else rimpl
     rcases = [] if rcases is None else rcases
@@ -317,6 +322,13 @@ def run_file(ctx, fidx, n_plans, seed, lines, impl, cases, rlines=None, rimpl=No
                     gathered.append((sm_of(cr_.get_sharemap(), srv_of), sm_of(ur.get_sharemap(), srv_of)))
                     return orig_gather(self_, ur, cr_, crr_)
                 CiphertextFileNode._gather_repair_results = rec_gather
+                enc_params = []
+                orig_gaep = Repairer.get_all_encoding_parameters
+
+                def rec_gaep(self_):                         # observation only
+                    enc_params.append(tuple(self_._encodingparams))
+                    return orig_gaep(self_)
+                Repairer.get_all_encoding_parameters = rec_gaep
                 try:
                     crr = wait(node.check_and_repair(Monitor(), verify=use_verify))
                     rstate = "attempted" if crr.get_repair_attempted() else "not-needed"
@@ -328,6 +340,14 @@ def run_file(ctx, fidx, n_plans, seed, lines, impl, cases, rlines=None, rimpl=No
                     rstate = "raised:" + type(e).__name__
                 finally:
                     CiphertextFileNode._gather_repair_results = orig_gather
+                    Repairer.get_all_encoding_parameters = orig_gaep
+                if enc_params:
+                    # the repairer's encoding parameters vs the model (k, N of the cap, segment size of the validated UEB)
+                    (pk, _phappy, pn, pseg) = enc_params[-1]
+                    plines.append("repairparams %d %d %d %s" % (k, n, size, hx(genuine_items[files[0][1]][0])))
+                    pimpl.append("%d %d %d" % (pk, pn, pseg))
+                    pcases.append(dict(case, kind2="repairparams"))
+                    ctx.count("repair-params-compared")
                 C2.quiesce(rt, grid)
                 ctx.count("repair:" + rstate)
                 rcase = dict(case, via_verifycap=via_verifycap, verify=use_verify, repair=rstate)
@@ -501,5 +521,9 @@ def run(ctx):
     ctx.compare("per-share verdict of check(verify=True) vs the Lean verifier on the same share bytes", cases, impl, outs)
     ctx.compare("CiphertextFileNode._gather_repair_results (healthy / recoverable / count-shares-good from the pre-repair sharemap "
                 "and the upload's sharemap) vs the model", rcases, rimpl, ctx.model(rlines))
+    plines, pimpl, pcases = PARAM_LINES
+    ctx.compare("Repairer encoding parameters (k, N, segment size handed to CHKUploader) vs the model's repairParams on the "
+                "validated UEB", pcases, pimpl, ctx.model(plines))
+    del plines[:], pimpl[:], pcases[:]
     if cases:
         ctx.sample(cases[0])
